@@ -10,7 +10,7 @@ COMMON_ASSUME = [
 CHECKS = {
     "C01": {
         "test": "TestC01",
-        "quick": {"shards": 8, "checks": 1200},
+        "quick": {"shards": 8, "checks": 10000},
         "thorough": {"shards": 16, "checks": 3000},
         "rule": "rapid-generated block histories from the empty accumulator (deletion modes none/all/whole trees/sibling pairs/lone root/climbed/"
                 "all-but-one/one/p=1/8,1/2,7/8; addition modes 0,1,2,3,to 2^k-1,to 2^k,past 2^k,random) applied in lock-step to Stump, Pollard and 2-3 "
@@ -22,7 +22,7 @@ CHECKS = {
     },
     "C02": {
         "test": "TestC02",
-        "quick": {"shards": 8, "checks": 800},
+        "quick": {"shards": 8, "checks": 8000},
         "thorough": {"shards": 16, "checks": 2500},
         "rule": "histories as in C01; after every block up to 3 prove requests (one / two / sibling pairs / all / random third / one per tree / one per row, "
                 "in ascending, descending or rapid-permuted order) sent to Pollard, a full MapPollard and a partial MapPollard (restricted to the leaves it "
@@ -33,7 +33,7 @@ CHECKS = {
     },
     "C16": {
         "test": "TestC16",
-        "quick": {"shards": 8, "checks": 20000},
+        "quick": {"shards": 8, "checks": 100000},
         "thorough": {"shards": 16, "checks": 200000},
         "rule": "two parts. Enumerated (complete, dealt over shards): heights 0..7 (thorough 0..9): every position x {DetectRow, Parent, Left/RightChild, "
                 "ParentMany/ChildMany for every rise/drop incl. out of range}; every leaf count x {TreeRows, RootPositions}; every node of every forest x "
@@ -80,7 +80,7 @@ NOT_APPLICABLE = [{"property_id": "C%02d" % i, "reason": _PENDING} for i in rang
 
 CHECKS["C04"] = {
     "test": "TestC04",
-    "quick": {"shards": 8, "checks": 6000},
+    "quick": {"shards": 8, "checks": 30000},
     "thorough": {"shards": 16, "checks": 60000, "fuzz": {"target": "FuzzC04", "seconds": 240}},
     "rule": "a small real forest (0..6 generated blocks) gives the state for Pollard.Verify, MapPollard.Verify and VerifyPartialProof (generated TotalRows, "
             "full/partial, remember on/off); Verify and Stump.Update get that stump, or the same forest embedded at the low end of a stump with up to 2^62+.. "
@@ -130,7 +130,7 @@ NOT_APPLICABLE[:] = [e for e in NOT_APPLICABLE if e["property_id"] not in CHECKS
 
 CHECKS["C05"] = {
     "test": "TestC05",
-    "quick": {"shards": 8, "checks": 1500},
+    "quick": {"shards": 8, "checks": 6000},
     "thorough": {"shards": 16, "checks": 6000},
     "rule": "a generated history builds the state in Stump, Pollard, a full and a partial MapPollard (generated TotalRows) and a light client's cached proof; "
             "then one block deletes a generated live target set (shapes as in C02) whose proof is encoded as: canonical / targets+hashes permuted in parallel / "
@@ -152,7 +152,7 @@ NOT_APPLICABLE[:] = [e for e in NOT_APPLICABLE if e["property_id"] not in CHECKS
 
 CHECKS["C06"] = {
     "test": "TestC06",
-    "quick": {"shards": 8, "checks": 800},
+    "quick": {"shards": 8, "checks": 4000},
     "thorough": {"shards": 16, "checks": 4000},
     "rule": "rapid-generated sequences of block / undo (depth 1 or a random depth up to the whole history) / redo-the-undone-block steps, new blocks after an "
             "undo use leaves with different hashes (branch salt); run on Pollard, a full MapPollard and a partial MapPollard (generated TotalRows; partial "
@@ -175,7 +175,7 @@ NOT_APPLICABLE[:] = [e for e in NOT_APPLICABLE if e["property_id"] not in CHECKS
 
 CHECKS["C07"] = {
     "test": "TestC07",
-    "quick": {"shards": 8, "checks": 1500},
+    "quick": {"shards": 8, "checks": 8000},
     "thorough": {"shards": 16, "checks": 6000},
     "rule": "block histories as in C01 driven through Stump.Update only; per block the remembered add indexes are drawn from the classes none / all / last / first / "
             "random / last-plus-random (ascending []uint32, as callers pass it); the light client starts with an empty proof and calls Proof.Update with the block's "
@@ -193,7 +193,7 @@ MANIFEST_TEXT["C07"] = {
 }
 CHECKS["C11"] = {
     "test": "TestC11",
-    "quick": {"shards": 8, "checks": 1500},
+    "quick": {"shards": 8, "checks": 12000},
     "thorough": {"shards": 16, "checks": 6000},
     "rule": "block histories as in C07 through Stump.Update; after every successful update the returned UpdateData is compared field by field with values derived "
             "from the reference model only: PrevNumLeaves; ToDestroy (empty trees popped by the binary addition, post-block layout, destruction order); "
@@ -212,7 +212,7 @@ NOT_APPLICABLE[:] = [e for e in NOT_APPLICABLE if e["property_id"] not in CHECKS
 
 CHECKS["C08"] = {
     "test": "TestC08",
-    "quick": {"shards": 8, "checks": 1500},
+    "quick": {"shards": 8, "checks": 8000},
     "thorough": {"shards": 16, "checks": 6000},
     "rule": "rapid-generated sequences of block (C07's remember classes) / undo (depth 1 or random depth, newest first) / redo steps; new blocks after an undo use "
             "different leaf hashes. The light client calls Proof.Update per block and Proof.Undo with (numAdds, leaf count after the block, the block's targets, "
@@ -233,7 +233,7 @@ NOT_APPLICABLE[:] = [e for e in NOT_APPLICABLE if e["property_id"] not in CHECKS
 
 CHECKS["C09"] = {
     "test": "TestC09",
-    "quick": {"shards": 8, "checks": 1200},
+    "quick": {"shards": 8, "checks": 6000},
     "thorough": {"shards": 16, "checks": 5000},
     "rule": "rapid-generated interleavings, on a non-full MapPollard started fresh (TotalRows from {0,1,2,3,4,5,7,63}) or from bare roots of a generated state "
             "(NewMapPollardFromRoots), of: block (Verify(remember) of the deletions, Modify with generated Remember flags), Verify(remember) and Ingest of "
@@ -254,7 +254,7 @@ NOT_APPLICABLE[:] = [e for e in NOT_APPLICABLE if e["property_id"] not in CHECKS
 
 CHECKS["C10"] = {
     "test": "TestC10",
-    "quick": {"shards": 8, "checks": 700},
+    "quick": {"shards": 8, "checks": 3000},
     "thorough": {"shards": 16, "checks": 3000},
     "rule": "rapid-generated sequences of block / undo / Verify(remember) of arbitrary live sets / serialize-and-restore steps on Pollard, a full MapPollard and a "
             "partial MapPollard (generated TotalRows); after EVERY step every instance answers: GetLeafPosition and GetLeafHashPositions for every live "
@@ -277,7 +277,7 @@ NOT_APPLICABLE[:] = [e for e in NOT_APPLICABLE if e["property_id"] not in CHECKS
 CHECKS["C13"] = {
     "test": "TestC13",
     "level": "fault_enumeration",
-    "quick": {"shards": 8, "checks": 300},
+    "quick": {"shards": 8, "checks": 600},
     "thorough": {"shards": 16, "checks": 2500},
     "rule": "a rapid-generated step sequence (block / undo / Verify(remember); for a partial forest also Prune and Ingest) brings a Pollard, a full or a partial "
             "MapPollard (generated TotalRows) to a reachable state that is first checked against the reference model. Then, per state, enumerated: (a) round trip through "
@@ -305,7 +305,7 @@ NOT_APPLICABLE[:] = [e for e in NOT_APPLICABLE if e["property_id"] not in CHECKS
 
 CHECKS["C14"] = {
     "test": "TestC14",
-    "quick": {"shards": 8, "checks": 2500},
+    "quick": {"shards": 8, "checks": 20000},
     "thorough": {"shards": 16, "checks": 12000},
     "rule": "a rapid-generated step sequence (block / Verify(remember) / Prune / Undo) brings the reference model and a partial MapPollard (generated TotalRows) to a "
             "state; target set A is drawn as in C02 and B with a forced relation to A (free / overlapping / sibling leaves / cousins / other trees / superset / same / "
@@ -350,7 +350,7 @@ NOT_APPLICABLE[:] = [e for e in NOT_APPLICABLE if e["property_id"] not in CHECKS
 
 CHECKS["C17"] = {
     "test": "TestC17",
-    "quick": {"shards": 8, "checks": 1200},
+    "quick": {"shards": 8, "checks": 4000},
     "thorough": {"shards": 16, "checks": 5000},
     "rule": "honest block histories (C01 shapes, deletions in drawn - mostly unsorted - request order, generated remember flags) on a Stump, a Pollard, a full and a partial "
             "MapPollard (generated TotalRows; in half of the cases 0, i.e. equal to the rows the forest needs, where a map forest translates and therefore copies nothing). "
